@@ -454,6 +454,7 @@ class Ctx:
             ob['stage'] = 'concrete'
             if not phi:
                 ob['model'] = self.model_values()
+                ob['_m'] = self.model
             return ob
         goal = as_bool_term(phi)
         neg = z3.simplify(z3.Not(goal))
@@ -1518,6 +1519,15 @@ def _ctx_prove_close(self, name, a, b, tol=1e-9, scale=None, info=None, timeout_
     ob = self.prove(name, all_close(a, b, tol, scale), timeout_ms=timeout_ms, info=info)
     ob['exact_verdict'] = ob_exact['verdict']
     ob['ms'] += ob_exact['ms']
+    if ob['verdict'] == 'sat':
+        # look for a counterexample with a margin the float replay can confirm
+        for margin in (1e-1, 1e-3):
+            ob2 = self.prove(name, all_close(a, b, margin, scale), timeout_ms=min(timeout_ms or self.prove_timeout_ms, 10000), info=info)
+            self.obligations.pop()
+            if ob2['verdict'] == 'sat':
+                ob['model'], ob['_m'] = ob2.get('model'), ob2.get('_m')
+                ob['margin'] = margin
+                break
     return ob
 
 
